@@ -95,7 +95,8 @@ def rule_nodes(rep, polys):
                 xv = alg.conv(w[0]["rhs"]["args"][0])
                 F = [f for f in xv.atoms(sp.Function) if f.func.__name__ == "m_nbr_sincs"]
                 if len(F) == 1:
-                    x_ok = sp.simplify(xv - (idx * F[0] - floor_f(idx * F[0]))) == 0
+                    from C08 import coerced_once
+                    x_ok = sp.simplify(xv - (idx * F[0] - floor_f(idx * F[0]))) == 0 and coerced_once(w[0]["rhs"]["args"][0])
             # sub-filter index and window index come from the same nearest point
             rd = a.get("reads", [])
             r_ok = False
@@ -265,6 +266,15 @@ def run(rep):
     rep.guarded("R-C01-ola", rule_ola)
     import C15
     rep.guarded("R-C15-lanes", lambda r: C15.run_all_kernels(r, "R-C15-lanes"))
+    # "for every way of chunking the stream": the buffer-carry rules of C05 for the two sinc types
+    import C05
+    for t in ("SincFixedIn", "SincFixedOut"):
+        def carry(rep, t=t):
+            m = asyncmodel.extract(facts, t)
+            C05.rule_shift(rep, t, m)
+            C05.rule_rebase(rep, t, m)
+            C05.rule_preroll(rep, t, m)
+        rep.guarded("R-C05-shift", carry)
     rep.floor("R-C01-poly", 1 + 9 + 6)
     rep.floor("R-C01-nodes", 4 + 8)
     rep.floor("R-C01-grid", 6)
@@ -272,12 +282,16 @@ def run(rep):
     rep.floor("R-C01-cutoff-lower", 2)
     rep.floor("R-C01-ola", 7)
     rep.floor("R-C15-lanes", 55)
+    rep.floor("R-C05-shift", 6)
+    rep.floor("R-C05-rebase", 4)
+    rep.floor("R-C05-preroll", 14)
     rep.clause("R-C01-poly", "interp_cubic/quad/lin are the exact Lagrange interpolants on the nodes derived from the code")
     rep.clause("R-C01-nodes", "those node sets equal the sub-index offsets produced by get_nearest_times_{4,3,2} (with seamless wrap), each arm uses the matching pair and x = frac(idx·factor)")
     rep.clause("R-C01-grid", "fractional-delay table orientation: sub-filter s+1 evaluates 1/factor later, the wrap s = factor ≡ (index+1, 0) is continuous, sinc centred at totpoints/2 with argument scale f_cutoff/factor, windowed and normalised")
     rep.clause("R-C01-siblings", "SincFixedIn and SincFixedOut arms compute each frame identically")
     rep.clause("R-C01-cutoff-lower", "the cutoff handed to the kernels is not lower than f_cutoff·min(1, ratio)")
     rep.clause("R-C01-ola", "FFT unit: zero-padded 2N transforms, filter scaled by 1/(2·fft_size_in), bins [0,new_len) filtered, output = first half + saved overlap, new overlap = second half")
+    rep.clause("R-C05-shift / -rebase / -preroll", "the history carried between chunks is the data loaded last and the position is rebased by it (shared with C05): the stream does not depend on the chunking")
     rep.clause("R-C15-lanes", "the dot-product kernels add every product exactly once (shared with C15)")
     rep.not_decided += ["amplitude within 1 % / 0.1 %, stop-band leakage and interpolation-error bounds, window shapes beyond their defining formulas, f32 accuracy, calculate_cutoff's fitted constants: numerical analysis of a filter, not shape of code"]
     rep.trusted += ["syn parser", "sympy", "realfft transforms are unnormalised DFTs"]
